@@ -4,7 +4,7 @@ Model driver for C14. Line protocol (fields separated by one space, lists by ','
 L1 (scheduler pass decision logic):
   rq <entries> <running> <unalloc> <script> <latched> <nowstate>
        entries  u:S:prio:type,…   S ∈ Q L R C X O (queued locked running complete cancelled other)
-       running  u,…               keys of pool.Running()
+       running  u|u:t,…           pool.Running(): live entry / exited at t
        unalloc  type:n,…          pool.Unallocated()
        script   string of 0/1     answers of AtQuota/KillContainer/Create/StartContainer in call order
        latched  u,…               containers whose operation latch (uuidOp) is held during the pass
@@ -95,13 +95,13 @@ def showAsync (latched : List Nat) (now : Nat → Option CState) (gs : List (Op 
 def dedup (l : List String) : List String :=
   l.foldl (fun acc x => if acc.contains x then acc else acc ++ [x]) []
 
-def runRq (ents : List Ent) (running : List Nat) (un : Unalloc) (script : List Bool)
+def runRq (ents : List Ent) (snap : RunSnap) (un : Unalloc) (script : List Bool)
     (latched : List Nat) (nowst : List (Nat × CState)) : String :=
   let now := fun u => match nowst.find? (fun p => p.1 == u) with
     | some p => some p.2
     | none => (ents.find? (fun e => e.uuid == u)).map (·.state)
   let outs := (priorityOrders ents).map (fun sorted =>
-    let o := tryrun (fun u => running.contains u) sorted un [] script
+    let o := tryrun (snapKeys snap) sorted un [] script
     let sds := sortNat (shutdownTypes o)
     let calls := o.calls ++ overquotaUnlocks o.overquota ++ sds.map .shutdown
     let locks := calls.filterMap (fun c => match c with | .goLock u => some (Op.lock, u) | _ => none)
@@ -170,11 +170,19 @@ def runLa (ops : List String) : Option String := do
     else none
   pure (joinOr out ++ ";held=" ++ joinOr ((sortNat (l.map (·.1))).map toString))
 
+/-- the `Running()` snapshot of an `rq` case: `u` (zero time) or `u:t` (exited at `t`) -/
+def parseSnap (s : String) : Option RunSnap :=
+  (splitList s).mapM (fun x => match x.splitOn ":" with
+    | [u] => do pure ((← u.toNat?), none)
+    | [u, t] => do pure ((← u.toNat?), some (← t.toNat?))
+    | _ => none)
+
 def stepL1 (f : List String) : Option String :=
   match f with
   | ["rq", es, rn, un, sc, la, nw] => do
     let ents ← (splitList es).mapM parseEnt
-    pure (runRq ents (← parseNats rn) (← parseUnalloc un) (← parseScript sc) (← parseNats la) (← parseNow nw))
+    -- `running`: `u` = live entry, `u:t` = exit placeholder; runQueue looks at the keys only
+    pure (runRq ents (← parseSnap rn) (← parseUnalloc un) (← parseScript sc) (← parseNats la) (← parseNow nw))
   | ["sy", es, rn, qu, au, la] => do
     let ents ← (splitList es).mapM parseEnt
     let au ← if au == "1" then some true else if au == "0" then some false else none
@@ -288,8 +296,11 @@ def poolOp (s : PSt) (op : String) : Option (List PSt) := do
       let pend := s.pend.map (fun q => if q.1 == wid && q.2.1 == u then (q.1, q.2.1, true) else q)
       pure { s with pool := p, pend := pend ++ [(wid, u, false)],
                     out := s.out ++ [s!"w{wid}{showWS w.state}{showIB w.idleB}"] })
-  | "sd", [u] =>
+  | "sd", u :: cmdErr =>
+    -- `sd<u>` / `sd<u>:<e>`: the start command returns (e = 1: with an error); `rr.Start()` passes no
+    -- result on, so the completion closure is the same in both cases
     let u ← u.toNat?
+    let _ ← (match cmdErr with | [] => some false | [e] => parseBool e | _ => none)
     match s.pend.find? (fun q => q.2.1 == u) with
     | some q =>
       -- a superseded closure finds another runner in `starting` and returns
